@@ -564,7 +564,14 @@ func (ex *Exec) step(st *State, in ssa.Instruction) bool {
 		loc := st.derefForAccess(in, addr, x.Addr.Type())
 		v := st.val(x.Val)
 		if l, ok := v.(Loc); ok && loc.Alloc == nil {
-			unsup("interior pointer (%s) stored into the heap at %s", l.describe(), ex.pos(in))
+			if l.Kind != "E" || l.Alloc != nil {
+				unsup("interior pointer (%s) stored into the heap at %s", l.describe(), ex.pos(in))
+			}
+			// &s[i] stored into a heap field: modelled as a pointer to a separate object whose contents are arbitrary
+			// (reads through it are over-approximated; a WRITE through it would not be reflected in s[i] - listed as an
+			// assumption in the evidence)
+			ex.note("ASSUMPTION: a pointer to a slice element stored into the heap (" + ex.pos(in) + ") is modelled as a pointer to a separate object with arbitrary contents; writes through it are not reflected in the element")
+			v = Sc{st.newRef("elemptr")}
 		}
 		ex.checkFrame(st, in, loc)
 		st.store(loc, v)
